@@ -49,90 +49,125 @@ example : toChunks 2 (by decide) ([] : List Nat) = [[]] := by simp [toChunks]
 section Pipeline
 open Eru.Misc.Sender
 
-/-- the states a `SendLargeFile` call can be in: `n = behs.length` (deduplicated) targets with
-arbitrary scripted behaviours (missing workload, engine that reads everything, rejects at once,
-aborts after k bytes, returns early), any chunk list (empty file = one empty chunk), any
-interleaving of the goroutines -/
-def Reachable (behs : List Beh) (chunks : List (List Byte)) (s : State) : Prop :=
-  Reach behs (initState behs.length chunks) s
+/-- the states a `SendLargeFile` call can be in: `behs.length` known targets with arbitrary scripted
+behaviours (missing workload, engine that reads everything, rejects at once, aborts after k bytes,
+returns early), a target list `ids` that may name a target several times (the producer
+de-duplicates it per message, fix D21b), any message list (an empty file is one empty chunk),
+any interleaving of the goroutines -/
+def Reachable (behs : List Beh) (ids : List Nat) (msgs : List Msg) (s : State) : Prop :=
+  Reach behs (initState behs.length ids msgs) s
+
+/-- the chunk messages of one file: every message carries the same engine-call arguments -/
+def fileMsgs (M : CopyArgs) (chunks : List (List Byte)) : List Msg := chunks.map fun ch => { md := M, chunk := ch }
 
 /-- **No reachable deadlock.** As long as the result channel is not closed, some goroutine of the
 call can take a step — for every set of targets, every engine behaviour and every schedule. -/
-theorem no_reachable_deadlock (behs : List Beh) (chunks : List (List Byte)) (s : State)
-    (hr : Reachable behs chunks s) (hf : final s = false) :
+theorem no_reachable_deadlock (behs : List Beh) (ids : List Nat) (msgs : List Msg)
+    (hids : ∀ i ∈ ids, i < behs.length) (s : State)
+    (hr : Reachable behs ids msgs s) (hf : final s = false) :
     ∃ a s', step behs s a = some s' :=
-  no_deadlock behs s (hr.inv (GInv.init behs chunks)) hf
+  no_deadlock behs s (hr.inv (GInv.init behs ids msgs hids)) hf
 
 /-- **Every step counts.** Each step strictly decreases a natural-number measure, so no schedule
 can run forever: at most `State.mu` steps remain in any state. -/
 theorem every_run_is_finite (behs : List Beh) (s s' : State) (a : Action) (h : step behs s a = some s') :
     s'.mu < s.mu := step_decreases behs s s' a h
 
-/-- **The call always finishes.** From every reachable state, every maximal continuation is finite
-(previous theorem) and cannot stop before the result channel is closed (no deadlock); in
-particular a final state is reachable from every reachable state. -/
-theorem always_finishes (behs : List Beh) (chunks : List (List Byte)) (s : State)
-    (hr : Reachable behs chunks s) : ∃ s', Reach behs s s' ∧ final s' = true :=
-  finishes_from behs s.mu s (hr.inv (GInv.init behs chunks)) (Nat.le_refl _)
+/-- **Every maximal run ends with the result channel closed.**  A run of `n` steps from the initial
+state has `n ≤ mu(init)` (so every run can be extended only finitely often), and a run that cannot
+be extended any further — no goroutine can move — has reached a final state. -/
+theorem maximal_run_ends_final (behs : List Beh) (ids : List Nat) (msgs : List Msg)
+    (hids : ∀ i ∈ ids, i < behs.length) (n : Nat) (s : State)
+    (hrun : RunN behs n (initState behs.length ids msgs) s) :
+    n ≤ (initState behs.length ids msgs).mu ∧ ((∀ a, step behs s a = none) → final s = true) := by
+  refine ⟨by have := hrun.bounded; omega, ?_⟩
+  intro hstuck
+  cases hf : final s with
+  | true => rfl
+  | false =>
+    obtain ⟨a, s', hs⟩ := no_reachable_deadlock behs ids msgs hids s hrun.reach hf
+    rw [hstuck a] at hs; cases hs
 
+/-- **The call always finishes**: from every reachable state a final state is reachable, and (by
+the previous theorems) every way of continuing gets there after finitely many steps. -/
+theorem always_finishes (behs : List Beh) (ids : List Nat) (msgs : List Msg)
+    (hids : ∀ i ∈ ids, i < behs.length) (s : State)
+    (hr : Reachable behs ids msgs s) : ∃ s', Reach behs s s' ∧ final s' = true :=
+  finishes_from behs s.mu s (hr.inv (GInv.init behs ids msgs hids)) (Nat.le_refl _)
 
-/-- **Delivered content is identical; exactly one result per target.**  In every final state of
-every schedule, for every (deduplicated) target of a non-empty chunk list (an empty file still has
-one chunk): exactly one message was sent on the result channel, it carries an error iff the
-workload is missing or the engine failed, and the engine has received exactly the bytes its
-behaviour allows — the whole file, byte for byte, when it reads to the end (`limit = none`),
-the first `k` bytes when it stops after `k`, nothing when the workload is missing. -/
-theorem delivered_identical (behs : List Beh) (chunks : List (List Byte)) (hne : chunks ≠ [])
-    (s : State) (hr : Reachable behs chunks s) (hf : final s = true) (i : Nat) (hi : i < behs.length) :
+/-- **Delivered content is identical, with the requested owner and mode; exactly one result per
+target.**  In every final state of every schedule, for every listed target (however often it is
+listed) of a non-empty message list whose messages all carry the arguments `M`: exactly one
+message was sent on the result channel, it carries an error iff the workload is missing or the
+engine failed; the engine was called with exactly `M` (destination, size, mode, uid, gid — unless
+the workload is missing and the engine is never called, the copier still records them); and the
+engine has received exactly the bytes its behaviour allows — the whole file, byte for byte, when it
+reads to the end, the first `k` bytes when it stops after `k`, nothing when the workload is missing. -/
+theorem delivered_identical (behs : List Beh) (ids : List Nat) (msgs : List Msg) (M : CopyArgs)
+    (hids : ∀ i ∈ ids, i < behs.length) (hne : msgs ≠ []) (hM : ∀ m ∈ msgs, m.md = M)
+    (s : State) (hr : Reachable behs ids msgs s) (hf : final s = true) (i : Nat) (hi : i ∈ ids) :
     ∃ t b, s.ts[i]? = some t ∧ behs[i]? = some b ∧
-      t.results = [expectedErr b] ∧ t.got = expectedGot b chunks.flatten := by
-  have hG := hr.inv (GInv.init behs chunks)
-  obtain ⟨hd, hcr⟩ := hr.data (GInv.init behs chunks) (DG.init behs chunks hne)
+      t.results = [expectedErr b] ∧ t.args = some M ∧ t.got = expectedGot b (msgs.map (·.chunk)).flatten := by
+  have hG := hr.inv (GInv.init behs ids msgs hids)
+  obtain ⟨hd, hcr, _, hargs⟩ := hr.data (GInv.init behs ids msgs hids) (DG.init behs ids msgs M hne hM)
   obtain ⟨hl, _, _, hc⟩ := hG
-  have hi' : i < s.ts.length := hl ▸ hi
+  have hib : i < behs.length := hids i hi
+  have hi' : i < s.ts.length := hl ▸ hib
   have hti : s.ts[i]? = some s.ts[i] := List.getElem?_eq_getElem hi'
-  have hbi : behs[i]? = some behs[i] := List.getElem?_eq_getElem hi
+  have hbi : behs[i]? = some behs[i] := List.getElem?_eq_getElem hib
   refine ⟨s.ts[i], behs[i], hti, hbi, ?_⟩
   simp only [final, Bool.and_eq_true, List.all_eq_true] at hf
   obtain ⟨hcl, hall⟩ := hf
   have hcreated : (s.ts[i]).created = true := by
-    rcases hcr i _ hti with h | ⟨ch, hm⟩
+    rcases hcr i _ hi hti with h | ⟨ch, hm⟩
     · exact h
     · rw [hc hcl] at hm; cases hm
   have hdone : (s.ts[i]).cop = .done := by
     have := hall _ (List.getElem_mem hi')
     simpa [hcreated] using this
-  have := (hd i _ _ hti hbi).2.2.2
-  rw [hdone] at this
-  exact this
+  have h4 := (hd i _ _ hi hti hbi).2.2.2
+  rw [hdone] at h4
+  have ha := (hargs _ (List.getElem_mem hi')).2 (by rw [hdone]; exact fun e => by cases e)
+  exact ⟨h4.1, ha, h4.2⟩
 
 /-- in particular a target whose engine reads to the end receives the file unchanged, whatever
-the other targets do (missing, rejecting, aborting) -/
-theorem full_reader_gets_file (behs : List Beh) (chunks : List (List Byte)) (hne : chunks ≠ [])
-    (s : State) (hr : Reachable behs chunks s) (hf : final s = true) (i : Nat) (hi : i < behs.length)
+the other targets do (missing, rejecting, aborting) and however often it is listed -/
+theorem full_reader_gets_file (behs : List Beh) (ids : List Nat) (msgs : List Msg) (M : CopyArgs)
+    (hids : ∀ i ∈ ids, i < behs.length) (hne : msgs ≠ []) (hM : ∀ m ∈ msgs, m.md = M)
+    (s : State) (hr : Reachable behs ids msgs s) (hf : final s = true) (i : Nat) (hi : i ∈ ids)
     (hb : behs[i]? = some ⟨false, none, false⟩) :
-    ∃ t, s.ts[i]? = some t ∧ t.results = [false] ∧ t.got = chunks.flatten := by
-  obtain ⟨t, b, h1, h2, h3, h4⟩ := delivered_identical behs chunks hne s hr hf i hi
+    ∃ t, s.ts[i]? = some t ∧ t.results = [false] ∧ t.args = some M ∧ t.got = (msgs.map (·.chunk)).flatten := by
+  obtain ⟨t, b, h1, h2, h3, h4, h5⟩ := delivered_identical behs ids msgs M hids hne hM s hr hf i hi
   rw [hb] at h2; injection h2 with h2; subst h2
-  exact ⟨t, h1, by simpa [expectedErr] using h3, by simpa [expectedGot] using h4⟩
+  exact ⟨t, h1, by simpa [expectedErr] using h3, h4, by simpa [expectedGot] using h5⟩
 
+/-- end to end (chunking + pipeline): sending `content` in chunks of `size` with arguments `M`
+delivers exactly `content`, with `M`, to every listed target whose engine reads to the end — for
+every size, including the empty file, and for target lists with duplicates -/
+theorem send_delivers_file (behs : List Beh) (ids : List Nat) (content : List Byte) (size : Nat) (hs : 0 < size)
+    (M : CopyArgs) (hids : ∀ i ∈ ids, i < behs.length)
+    (s : State) (hr : Reachable behs ids (fileMsgs M (toChunks size hs content)) s) (hf : final s = true)
+    (i : Nat) (hi : i ∈ ids) (hb : behs[i]? = some ⟨false, none, false⟩) :
+    ∃ t, s.ts[i]? = some t ∧ t.results = [false] ∧ t.args = some M ∧ t.got = content := by
+  have hne : fileMsgs M (toChunks size hs content) ≠ [] := by
+    unfold fileMsgs; rw [toChunks]; split <;> simp
+  have hM : ∀ m ∈ fileMsgs M (toChunks size hs content), m.md = M := by
+    intro m hm; simp only [fileMsgs, List.mem_map] at hm; obtain ⟨_, _, rfl⟩ := hm; rfl
+  obtain ⟨t, h1, h2, h3, h4⟩ := full_reader_gets_file behs ids _ M hids hne hM s hr hf i hi hb
+  refine ⟨t, h1, h2, h3, ?_⟩
+  rw [h4]
+  have : (fileMsgs M (toChunks size hs content)).map (·.chunk) = toChunks size hs content := by
+    simp [fileMsgs, Function.comp_def]
+  rw [this, toChunks_flatten]
 
-/-- end to end (chunking + pipeline): sending `content` in chunks of `size` delivers exactly
-`content` to every target whose engine reads to the end — for every size, including empty -/
-theorem send_delivers_file (behs : List Beh) (content : List Byte) (size : Nat) (hs : 0 < size)
-    (s : State) (hr : Reachable behs (toChunks size hs content) s) (hf : final s = true) (i : Nat)
-    (hi : i < behs.length) (hb : behs[i]? = some ⟨false, none, false⟩) :
-    ∃ t, s.ts[i]? = some t ∧ t.results = [false] ∧ t.got = content := by
-  have hne : toChunks size hs content ≠ [] := by
-    rw [toChunks]; split <;> simp
-  obtain ⟨t, h1, h2, h3⟩ := full_reader_gets_file behs _ hne s hr hf i hi hb
-  exact ⟨t, h1, h2, by rw [h3, toChunks_flatten]⟩
-
-/-- non-trivial instance: target 0 reads everything, target 1 is missing, target 2's engine
-rejects the copy at once; 14 chunks (more than the buffer of 10 plus the one in flight) -/
+/-- non-trivial instance: target 0 reads everything and is listed twice, target 1 is missing,
+target 2's engine rejects the copy at once; 14 chunks (more than the buffer of 10 plus the one in
+flight) -/
 example : let behs : List Beh := [⟨false, none, false⟩, ⟨true, none, false⟩, ⟨false, some 0, true⟩]
-    let s := run behs 400 (initState 3 (List.replicate 14 [1, 2]))
-    final s = true ∧ s.ts.map (·.results) = [[false], [true], [true]] ∧ s.ts.map (·.got.length) = [28, 0, 0] := by
+    let M : CopyArgs := ⟨"/tmp/f", 28, 420, 1000, 1000⟩
+    let s := run behs 400 (initState 3 [0, 1, 0, 2] (fileMsgs M (List.replicate 14 [1, 2])))
+    final s = true ∧ s.ts.map (·.results) = [[false], [true], [true]] ∧ s.ts.map (·.got.length) = [28, 0, 0] ∧
+      s.ts.map (·.args) = [some M, some M, some M] := by
   decide
 
 end Pipeline
